@@ -31,6 +31,11 @@ from .blueprints import TableGroupBlueprint
 
 pp.ParserElement.set_default_whitespace_chars(" \t\r")
 
+# The grammar elements are shared by all parser instances. pyparsing finishes building ("streamlines")
+# them lazily on first use, which is not thread-safe: do it once, at import time.
+for _shared_expr in (table, table_with_properties, ref, enum, table_group, project, sticky_note, comment):
+    _shared_expr.streamline()
+
 
 class PyDBML:
     """
